@@ -5,7 +5,8 @@ package bitmap
 // Since 0.1.9
 func Slice(words []uint64, from, to int32) []uint64 {
 
-	l := ((to - from) + 63) >> 6
+	// in 64 bit: to-from+63 exceeds int32 for ranges longer than MaxInt32-63 bits
+	l := (int64(to) - int64(from) + 63) >> 6
 	r := make([]uint64, l)
 
 	for i := from; i < to; i++ {
